@@ -24,6 +24,7 @@ import (
 
 	v2 "mosn.io/mosn/pkg/config/v2"
 	"mosn.io/mosn/pkg/configmanager"
+	mlog "mosn.io/mosn/pkg/log"
 	"mosn.io/mosn/pkg/router"
 	"verif/harness/hx"
 )
@@ -84,7 +85,7 @@ func (o op) modeTok() string {
 	return o.tok()
 }
 
-func runModeHistory(c *hx.Ctx, ops []op) {
+func runModeHistory(c *hx.Ctx, prop, kind string, ops []op) {
 	histNo++
 	configmanager.Reset()
 	e := &env{prefix: fmt.Sprintf("h%d.", histNo), rm: router.GetRoutersMangerInstance()}
@@ -173,12 +174,18 @@ func runModeHistory(c *hx.Ctx, ops []op) {
 	if len(res) > 0 {
 		r = strings.Join(res, ",")
 	}
-	c.Emit("C12", strings.TrimSpace("mode "+strings.Join(toks, " ")), r+" "+liveR+" "+load+" "+rebR)
+	c.Emit(prop, strings.TrimSpace(kind+" "+strings.Join(toks, " ")), r+" "+liveR+" "+load+" "+rebR)
 	c.Count(fmt.Sprintf("mode.len=%02d", len(ops)))
 	os.RemoveAll(base)
 }
 
-func runModeAll(c *hx.Ctx) {
+func runModeAll(c *hx.Ctx) { RunModeCases(c, "C12", "mode", c.N(250, 3000)) }
+
+// RunModeCases runs the mode histories and emits them as lines `<prop> <kind> …` (property C19 replays the same histories as its
+// `dynupd` cases: a restart from the persisted file must reproduce the running proxy's routers).
+func RunModeCases(c *hx.Ctx, prop, kind string, n int) {
+	mlog.DefaultLogger.Toggle(true)
+	mlog.StartLogger.Toggle(true)
 	r := c.Rng.Fork()
 	rt := func(id, pfx string) route { return route{id: id, pfx: pfx, valid: true} }
 	va := []vhost{{name: "v0", doms: []string{"a.b"}, routes: []route{rt("x", "")}}, {name: "v1", doms: []string{"*"}}}
@@ -196,11 +203,11 @@ func runModeAll(c *hx.Ctx) {
 		{ru("RD", va), {kind: "RD", r: "r2", vhs: vb}, ru("RS", vb)},
 	}
 	for _, h := range fixed {
-		runModeHistory(c, h)
+		runModeHistory(c, prop, kind, h)
 		c.Count("mode.stream=fixed")
 	}
 	g := &gen{c: c}
-	for i := 0; i < c.N(250, 3000); i++ {
+	for i := 0; i < n; i++ {
 		g.bad = i%6 == 5
 		g.routers, g.clus, g.lst = map[string]bool{}, map[string]bool{}, map[string]string{}
 		n := 1 + r.Intn(8)
@@ -219,7 +226,7 @@ func runModeAll(c *hx.Ctx) {
 			}
 			ops = append(ops, o)
 		}
-		runModeHistory(c, ops)
+		runModeHistory(c, prop, kind, ops)
 		if g.bad {
 			c.Count("mode.stream=malformed")
 		} else {
